@@ -1085,6 +1085,10 @@ func crashFamily(w *bufio.Writer, t int, preDepth int, maxPoint int, tears []int
 	}
 	full := runSets[len(runSets)-1]
 	conts := [][]string{{}, {"w.0.2"}, {"w.0.1"}}
+	// … or another invocation first, one that may not write the cache at all (a dependency-less task, a skip), then the edit
+	for _, set := range runSets[:len(runSets)-1] {
+		conts = append(conts, []string{"r." + set + ".0.-", "w.0.1"}, []string{"r." + set + ".0.-", "w.0.2"})
+	}
 	n, idx := 0, 0
 	var rec func(h []string)
 	rec = func(h []string) {
